@@ -187,6 +187,7 @@ harnesses! {
     e2n_bigint_narrowing [native 0] => e2n::bigint_narrowing;
     e2n_bigint_form [native 0] => e2n::bigint_form;
     e2n_value_compare [native 0] => e2n::value_compare;
+    e2n_c11_byron_attributes [native 0] => e2n::c11_byron_attributes;
     e2n_value_arith [native 0] => e2n::value_arith;
     e2n_c18_cert_signers [native 0] => e2n::c18_cert_signers;
     e2n_builder_battery [native 0] => battery::builder_battery;
